@@ -56,7 +56,7 @@ class FunctionTransformer(converter.Base):
         return templates.replace_as_expression(
             'ag__.autograph_artifact(l)', l=node)
 
-      scope = anno.getanno(node, anno.Static.SCOPE)
+      scope = anno.getanno(node, annos.NodeAnno.ARGS_AND_BODY_SCOPE)
       function_context_name = self.ctx.namer.new_symbol('lscope',
                                                         scope.referenced)
       fn_scope.context_name = function_context_name
